@@ -116,6 +116,11 @@ def unknown_loop_locals(fn_node, loop_node, known):
                     sh = ("opaque",)
                 if sh not in shapes:
                     shapes.append(sh)
+            elif isinstance(n, _ast.AugAssign) and isinstance(n.target, _ast.Name) and n.target.id == name and isinstance(n.op, (_ast.Add, _ast.Sub)):
+                if ("int",) not in shapes:
+                    shapes.append(("int",))          # a counter
+        if ("int",) in shapes:
+            shapes = [sh for sh in shapes if sh[0] != "opaque"]      # its initial value is a number too
         out[name] = shapes or [("opaque",)]
     return out
 
@@ -130,11 +135,16 @@ def havoc_unknown_locals(e, heads, unknown, tag):
     for h in heads:
         for combo in _it.product(*[unknown[n] for n in names]):
             h2 = e.fork(h)
+            # every value of the right shape, whether or not the loop can actually be in that state: a failure found from here on is
+            # reported as a violation only if a failing input is found on the real code (runner), as undecided otherwise
+            h2.ghost["@over_approx"] = sorted(names)
             for n, sh in zip(names, combo):
                 if sh[0] == "const":
                     h2.set_local(n, sh[1]) if hasattr(h2, "set_local") else _set_any_frame(h2, n, sh[1])
                 elif sh[0] == "tuple":
                     _set_any_frame(h2, n, tuple(z3.Int(f"{n}{i}!{tag}") for i in range(sh[1])))
+                elif sh[0] == "int":
+                    _set_any_frame(h2, n, z3.Int(f"{n}!{tag}"))
                 else:
                     _set_any_frame(h2, n, Opaque(n))
             out.append(h2)
